@@ -3,6 +3,7 @@
 
 #include <stdio.h>
 #include <string.h>
+#include <stdlib.h>
 #include <assert.h>
 #include "utf8_decode.h"
 
@@ -44,71 +45,46 @@ sanitize (const char *str, size_t length)
 const char *
 sanitize_utf8 (const char *text, size_t length)
 {
-#define TEXT_SIZE 2048
+    int c = 0;          /* character */
+    int p = 0;          /* byte position of the character */
+    size_t l = 0;       /* byte length of the character */
+    size_t pos = 0;     /* position in sanitized array */
+    size_t need = length * 4 + 1; /* the worst case: every byte -> "0xNN" */
+    static char *sanitized = NULL;
+    static size_t size = 0;
 
-    int c1 = 0, c2 = 0; /* characters */
-    int p1 = 0, p2 = 0; /* byte position of characters */
-    int pos = 0;        /* position in sanitized array */
-    static char sanitized[TEXT_SIZE];
-    char buf[32];
 
+    if (need > size) {
+        char *tmp = realloc (sanitized, need);
+        assert (tmp != NULL);
+        sanitized = tmp;
+        size = need;
+    }
 
 /* html data contain some unneccessary characters:
  * 1) such characters as '&lrm;' and '&rlm;' broke encoding to punycode;
  * 2) we don't want any '\r', '\n' characters in the output CSV file.
  */
-#define SKIP(c, p, l) do { \
-    if ((c) < 0x0020 || (c) == 0x007f) { \
-        sprintf (buf, "0x%02x", c); \
-        size_t x = strlen (buf); \
-        memcpy (sanitized + pos, buf, x); \
-        pos += x; \
-    } \
-    else { \
-        assert (pos < TEXT_SIZE); \
-        memcpy (sanitized + pos, text + p, l); \
-        pos += l; \
-    } \
-} while (0)
-
-
     utf8_decode_init ((char *) text, length);
-    /* look forward for characters and their lengths.
-     * Such way (may be ugly) helps us avoid creation of utf8_encode() func.
-     */
-    for (;;) {
-        c1 = utf8_decode_next ();
-        p1 = utf8_decode_at_byte ();
 
-        if (c1 < 0) {
-            if (c2 > 0) { /* it is possible that we miss something */
-                /* at p2, length: len - p2 */
-                SKIP(c2, p2, length - p2);
-            }
-            break;
-        }
+    while ((c = utf8_decode_next ()) >= 0) {
+        p = utf8_decode_at_byte ();
+        l = (c < 0x80) ? 1 : (c < 0x800) ? 2 : (c < 0x10000) ? 3 : 4;
 
-        if (p2 > 0) { /* previous character */
-            /* at p2, length: p1 - p2 */
-            SKIP(c2, p2, p1 - p2);
-        }
-
-        /* look forward */
-        c2 = utf8_decode_next ();
-        p2 = utf8_decode_at_byte ();
-
-        if (c2 > 0) {
-            /* at p1, length: p2 - p1 */
-            SKIP(c1, p1, p2 - p1);
-        }
+        if (c < 0x0020 || c == 0x007f)
+            pos += sprintf (sanitized + pos, "0x%02x", c);
         else {
-            /* it possible that we read everything; does not work always. */
-            /* at p1, length: len - p1 */
-            SKIP(c1, p1, length - p1);
+            memcpy (sanitized + pos, text + p, l);
+            pos += l;
         }
     }
 
-    assert (c1 == UTF8_END);
+    /* invalid UTF-8: print the rest of the text byte by byte */
+    if (c == UTF8_ERROR) {
+        for (p = utf8_decode_at_byte (); (size_t) p < length; p++)
+            pos += sprintf (sanitized + pos, "0x%02x", (unsigned char) text[p]);
+    }
+
     sanitized[pos] = '\0';
 
     return sanitized;
